@@ -53,7 +53,7 @@ S_COMMENT = [K("k3::S-Comment-noninterp"), K("k3::S-Comment-drop"), K("k3::S-Com
 TAL_BASIC = [K("k3::S-Define"), K("k3::S-Define-clauses"), K("k3::S-Define-tuple"), K("k3::S-Condition"), K("k3::S-Content"),
              K("k3::S-Replace"), K("k3::S-Structure"), K("k3::S-OmitTag"),
              K("k3::S-OmitTag-empty"), K("k3::S-OmitTag-selfclosing"),
-             K("k3::S-Attribute"), K("k3::S-Attribute-dict"), K("k3::S-Literal"), K("k3::S-Combined"), K("k3::S-Repeat")]
+             K("k3::S-Attribute"), K("k3::S-Attribute-quotes"), K("k3::S-Attribute-dict"), K("k3::S-Attribute-dict-first"), K("k3::S-Literal"), K("k3::S-Combined"), K("k3::S-Repeat")]
 
 S_TALES = [K("k3::S-Pipe3"), K("k3::S-Not"), K("k3::S-Exists"), K("k3::S-LambdaScope")]
 S_INTERP = [K("k3::S-Interp-text"), K("k3::S-Interp-off"), K("k3::S-Interp-lines"),
@@ -93,7 +93,8 @@ PROPS = {
         "fall through only on the five lookup-type exception classes (real class hierarchy "
         "axiomatised) and to propagate anything else; every schema additionally proves that each "
         "reached expression is evaluated exactly once and unreached ones never.",
-        S_TALES + TAL_BASIC + S_INTERP + S_MORE + [FRESH, K("utils.py::lookup_attr")],
+        S_TALES + TAL_BASIC + S_INTERP + S_MORE + [FRESH, K("utils.py::lookup_attr")] +
+        [K("utils.py::_resolve_dotted@%d" % n) for n in (1, 2, 3)],
         ["the Python sub-grammar (comprehensions, lambdas) and NameLookupRewriteVisitor scoping",
          "tales.transform_attribute's rewrite of a.b into lookup_attr(a, 'b') (lookup_attr itself is under contract); ExpressionParser prefix dispatch",
          "import:/string:/structure: prefixes"]),
@@ -119,7 +120,7 @@ PROPS = {
         "For a dynamic attribute the emitted code is proved to call the escape routine once with the "
         "attribute's own quote character and static text as default, to drop the attribute for None, "
         "and the escape routine itself (K2) maps `default` to the static text as written.",
-        [K("k3::S-Attribute"), K("k3::S-Attribute-dict")] + K2Q +
+        [K("k3::S-Attribute"), K("k3::S-Attribute-quotes"), K("k3::S-Attribute-dict"), K("k3::S-Attribute-dict-first")] + K2Q +
         [U('bounded.units', 'attrs', 'B-ATTR'), U('bounded.units', 'split', 'B-SPLIT'),
          # boolean / implicit attribute options decide how attributes render: a compiled module must
          # never be shared between two settings of them
